@@ -466,7 +466,7 @@ pub fn property() -> Property {
     Property {
         id: "C09",
         subs: vec![sub::<History>()],
-        fuzz: vec![FuzzSpec { target: "sat_history", runs: 60000, max_len: 300 }],
+        fuzz: vec![FuzzSpec { target: "sat_history", runs: 12000, max_len: 300 }],
         assumptions: vec![
             "CNFs over <= 6 variables, <= 10 clauses; histories of <= 40 decide/pop",
             "pop is only issued after a successful decide (the API forbids popping the initial state)",
